@@ -53,6 +53,8 @@ type objCase struct {
 	Name  string     `json:"name"`
 	Props []propCase `json:"props"`
 	NoID  bool       `json:"no_id,omitempty"`
+	// Null: an object without properties written as a YAML null ("Name:" or "Name: ~") instead of a mapping
+	Null int `json:"null,omitempty"` // 0 no, 1 empty value, 2 tilde
 }
 
 type docCase struct {
@@ -81,6 +83,10 @@ func (c docCase) yaml() string {
 	}
 	sb.WriteString("      objects:\n")
 	for _, o := range c.Objects {
+		if o.Null != 0 && len(o.Props) == 0 {
+			fmt.Fprintf(&sb, "        %s:%s\n", key(o.Name, c.Quote), map[int]string{1: "", 2: " ~"}[o.Null])
+			continue
+		}
 		fmt.Fprintf(&sb, "        %s:\n", key(o.Name, c.Quote))
 		if !o.NoID {
 			fmt.Fprintf(&sb, "          id: %s\n", key(o.Name, true))
@@ -358,6 +364,9 @@ func genDoc() *rapid.Generator[docCase] {
 			seen[name] = true
 			o := objCase{Name: name, NoID: rapid.IntRange(0, 9).Draw(t, "noID") == 0}
 			nProp := rapid.IntRange(0, 8).Draw(t, "nProps")
+			if nProp == 0 {
+				o.Null = rapid.IntRange(0, 2).Draw(t, "nullObject")
+			}
 			pseen := map[string]bool{}
 			for j := 0; j < nProp; j++ {
 				pn := genIdent().Draw(t, "propName")
